@@ -7,6 +7,11 @@ ALL = ["C%02d" % i for i in range(1, 21)]
 
 # id -> (category, technique, level text, level note, design ref, engine)
 CHECKS = {
+ "C17": ("model_checking",
+         "exhaustive enumeration of the string alphabet (every Unicode scalar value) and bounded-exhaustive enumeration of values/documents, each through the real serialiser, the real parser and a standard JSON parser; TileJSON through the real writers/readers and the real server",
+         "All 1,112,064 one-character strings, all 8421 strings of length <= 3 over 20 escape-class characters (also as object keys), 36 boundary numbers, all nested values of depth <= 2 / width <= 2 over 7 leaves (27k) plus a stride of depth 3: stringify -> parse gives the same value and serde_json reads the same value from the text. 6 TileJSON documents (escapes, lists, byte values, bounds, center, vector_layers with fields/description/zooms) x {versatiles, pmtiles, tar, directory} x 3 compressions: the metadata stored in the file (independently decoded) and the re-opened reader's TileJSON equal the given document, zoom range and bounds only narrowed. tiles.json and meta.json of 4 sources served by the real binary: valid JSON, carries the metadata, a tiles template for the id, zoom range and bounds of the stored coverage.",
+         "serde_json is the standard parser; where it refuses a long digit string as 'out of range' the RFC 8259 number grammar and Rust's float parser decide instead. Numbers compared as f64.",
+         "3/C17", "E-enum + E-http"),
  "C18": ("model_checking",
          "bounded-exhaustive enumeration of programs: syntax trees rendered with 0/1/2 deviations, all strings up to length 6/7 over an 11-symbol alphabet against a reference recursive-descent parser, and operation texts through the factory",
          "1812 (quick) syntax trees (pipelines of 1-3 of 12 node shapes with bare/quoted/escaped/list values, 0-2 nested sources incl. a second nesting level) are rendered canonically, with every single deviation (4 whitespace variants at each optional site, quoting of each bare value) and every pair of deviations for the first 1500 trees (7 M texts): the guarded parse_vpl must return exactly the tree. Every string of length <= 6 (1.9 M; <= 7 = 21 M in thorough) over a 1 k = \" \\ [ ] , | space and all single-character edits of two valid texts: parse_vpl and the reference parser of the documented grammar must both reject or both accept with equal trees. Factory: 9 valid and 33 invalid operation texts (unknown names, misplaced operations, missing/mistyped/out-of-range/wrong-arity parameters) and 12 orderings of non-commuting stages (built pipeline applies operations in written order).",
@@ -115,6 +120,7 @@ def main():
             "add_only": True,
         },
         "engines": [
+            {"name": "E-http", "path": "harness/src/checks/http.rs", "serves_properties": ["C05", "C07", "C06", "C17"], "kind_free_text": "process manager for the real versatiles serve binary + raw HTTP/1.1 keep-alive client with its own response parser (classifies dropped connections)"},
             {"name": "E-enum", "path": "harness/src/tilesets.rs, harness/src/codec.rs, harness/src/containers.rs, harness/src/checks/c01.rs", "serves_properties": ["C01", "C02", "C03", "C16"], "kind_free_text": "BFS over tile sets + bounded-exhaustive enumeration with independent codecs"},
             {"name": "E-fault", "path": "harness/src/checks/c12.rs", "serves_properties": ["C12"], "kind_free_text": "recording DataWriterTrait + crash-image materialiser, exhaustive over prefixes and byte cuts"},
             {"name": "E-order", "path": "harness/src/checks/c14.rs", "serves_properties": ["C14"], "kind_free_text": "completion-order explorer: gates in harness-supplied callbacks, manual poll_next, CPU-affinity-controlled concurrency window, DFS with prefix replay"},
